@@ -716,6 +716,7 @@ pub mod verif {
         }
     }
 
+    #[inline(never)]
     pub(super) fn count_nonzero(ptr: *const u8, len: usize) -> usize {
         let mut n = 0;
         for i in 0..len {
